@@ -1,18 +1,24 @@
 """C06 - restarting a logger never destroys or reorders earlier runs' records."""
 import gen_flw as g
 
-CLAIM = ("Proved in Coq for the model, Numbers naming (NumbersDirect naming: C06_restarts_numbersdirect; Timestamps naming incl. ticks between the runs: C06_restarts_timestamps, C06_restarts_timestamps_keep - there no name is used twice across runs): for EVERY sequence of runs on one directory (each run with its own criterion, "
-         "buffer capacity and append flag, any history of writes / raw chunks / flushes / triggers / ticks, also runs without a write), "
-         "the files r00000.., rCURRENT hold in this order exactly what all runs wrote (C06_restarts_numbers), and a later run never "
-         "touches a closed file: it keeps its number and content, the former current file is continued or closed under the next number "
-         "(C06_restarts_keep); bound: fewer than 2^32 operations (the index read back from a name is a u32), no cleanup, no faults. "
-         "The proof attempt itself produced a counterexample on the first model (suffix containing \"_r\"), confirmed on the code and "
-         "repaired (cc9ae9d). For the other namings, cleanup limits and pre-seeded directories the property is decided per explored "
-         "history by an executable oracle defined in Coq (Oracles/O_Stream.v + ReaderOrder.v: the family files in reader order - parsed "
-         "infix, archives decompressed - equal everything logged by all runs, or a tail of it under a cleanup limit; soundness "
-         "C06_oracle_sound, C06_tail_sound) applied to the implementation's directory snapshots after every flush and stop, and by the "
-         "correspondence check (model = implementation on every history). A restart theorem for TimestampsDirect and custom formats is not proved: partial.")
-THEOREMS = ["C06_restarts_numbers", "C06_restarts_keep", "C06_restarts_numbersdirect", "C06_restarts_timestamps", "C06_restarts_timestamps_keep", "C06_oracle_sound", "C06_tail_sound"]
+CLAIM = ('Proved in Coq for the model, Numbers naming (NumbersDirect naming: C06_restarts_numbersdirect; Timestamps naming incl. '
+         'ticks between the runs: C06_restarts_timestamps, C06_restarts_timestamps_keep - there no name is used twice across '
+         'runs): for EVERY sequence of runs on one directory (each run with its own criterion, buffer capacity and append flag, '
+         'any history of writes / raw chunks / flushes / triggers / ticks, also runs without a write), the files r00000.., '
+         'rCURRENT hold in this order exactly what all runs wrote (C06_restarts_numbers), and a later run never touches a closed '
+         'file: it keeps its number and content, the former current file is continued or closed under the next number '
+         '(C06_restarts_keep); bound: fewer than 2^32 operations (the index read back from a name is a u32), no cleanup, no '
+         'faults. The proof attempt itself produced a counterexample on the first model (suffix containing "_r"), confirmed on '
+         'the code and repaired (cc9ae9d). For the other namings, cleanup limits and pre-seeded directories the property is '
+         'decided per explored history by an executable oracle defined in Coq (Oracles/O_Stream.v + ReaderOrder.v: the family '
+         'files in reader order - parsed infix, archives decompressed - equal everything logged by all runs, or a tail of it '
+         "under a cleanup limit; soundness C06_oracle_sound, C06_tail_sound) applied to the implementation's directory snapshots "
+         'after every flush and stop, and by the correspondence check (model = implementation on every history). A restart '
+         'theorem for TimestampsDirect and custom formats is not proved: partial. Also proved for TimestampsDirect naming over '
+         'sequences of runs (C06_restarts_timestampsdirect, C06_restarts_timestampsdirect_keep; a run with append needs local '
+         'time or a zero zone offset - with use_utc and another offset the newest file is not found again and records are '
+         'reordered without loss: counterexample in Flw/TsdRestart.v, see DESIGN.md section 9). ')
+THEOREMS = ["C06_restarts_numbers", "C06_restarts_keep", "C06_restarts_numbersdirect", "C06_restarts_timestamps", "C06_restarts_timestamps_keep", "C06_oracle_sound", "C06_tail_sound", "C06_restarts_timestampsdirect", "C06_restarts_timestampsdirect_keep"]
 TRUSTED = ["modelled, not verified: std::fs (open/rename/remove/read_dir), flate2 (gunzip . gzip = id, validated by decompressing every archive), chrono formatting"]
 ASSUMPTIONS = ["no I/O faults, no kill (C19, C11), no foreign files (C14)", "the same naming scheme and cleanup strategy in all runs of a history"]
 RULE = ("1-3 runs per case on one file specification under the virtual clock: append on/off per run, all namings, size/age criteria, "
